@@ -879,7 +879,7 @@ func firstBlockedFrame(stderr string) string {
 }
 
 func child(c *vf.Ctx) {
-	if concChild(c) {
+	if concChild(c) || discChild(c) {
 		return
 	}
 	switch c.Child {
@@ -928,6 +928,10 @@ func child(c *vf.Ctx) {
 }
 
 func replay(c *vf.Ctx) {
+	if cs, ok := isDiscReplay(c); ok {
+		discReplay(c, cs)
+		return
+	}
 	if cs, ok := isConcReplay(c); ok {
 		concReplay(c, cs)
 		return
@@ -971,6 +975,7 @@ func run(c *vf.Ctx) {
 		"exhaustive part: every sequence up to length 5 (quick) / 6 (thorough) over an alphabet of 44 operations whose handle arguments range over the first 3 pooled handles (live, removed and foreign ones arise from the sequence itself), both flavours; " +
 		"random part: seeded sequences of length 40 over the whole handle pool incl. handles created by whole-list pushes; evaluations counts sequences whose last step was checked (exhaustive) resp. checked steps (random); " +
 		"concurrent part (thread-safe flavour): seeded programs of 3-6 goroutines x 4-10 calls over all 20 exported methods with unique values, recorded at the client boundary and decided by porcupine against a slice model with container/list semantics, plus window scenarios (iteration callback parked while other goroutines call), a 20 000-value whole-list push against a poller and a marker insert, the same workload without the recording clock in a -race child, and a quiescent structural check after every history; " +
+		"disciplines part (disc.go): histories in which the caller keeps and scribbles over every slice Values() returned and continues through the list Init() returned; iterations (all four iterators) of the lock-free list whose callbacks mutate the list around the cursor (47 relative actions at every position of lists of length 1-5, plus random scripts with nested iterations), compared with the canonical container/list loop run on a second mirror world; iterations of the thread-safe list whose callbacks read the list, use the other list and iterate again, callbacks that return an error or panic followed by further use, and caller-implemented source lists for the whole-list pushes, in single-goroutine timer-free children where a call that never returns is reported by the Go runtime; " +
 		"distinct_nontrivial counts distinct (flavour, sequence of operation x argument-class) signatures, e.g. PushBack>PushBack>MoveBefore(live,live)>Remove(live), of sequences (exhaustive ones up to length 5, and the random ones) that agreed with the reference and contain at least one handle-taking, whole-list or Init operation (handle numbering is abstracted away); distinct_op_argclass counts operation x argument-class (live/removed/foreign/stale = predates an Init/same/self/other) combinations")
 	maxLen := c.Pick(5, 6)
 	t0 := time.Now()
@@ -999,9 +1004,13 @@ func run(c *vf.Ctx) {
 	// self-push children
 	concDone := make(chan struct{})
 	go func() { defer close(concDone); runConc(c) }()
+	// the three workload disciplines (disc.go): held results + scribbling, re-entrant callbacks, failing callbacks
+	discDone := make(chan struct{})
+	go func() { defer close(discDone); runDisc(c) }()
 	runSelfPushChild(c, kPBL)
 	runSelfPushChild(c, kPFL)
 	<-concDone
+	<-discDone
 	c.Extra("phase_s_all", int(time.Since(t0).Seconds()))
 
 	c.SetExhaustive(false)
